@@ -561,6 +561,9 @@ _P = [
     Pipe(65, 16, "negative_broadcast_to", "negative(broadcast_to(a,shape))", 2, "i", 1, g_bcast_small_partner, lambda a, b, c, p: -np.broadcast_to(a, p)),
     Pipe(66, 16, "exp_multiply_broadcast_to_scalar", "exp(multiply(broadcast_to(a,shape),0.5))", 3, "f", 1, g_bcast_small_partner,
          lambda a, b, c, p: np.exp(np.broadcast_to(a, p) * np.float32(0.5)), True),
+    Pipe(67, 16, "hardtanh_add_params", "hardtanh(add(a,b),-0.25,0.75)", 2, "f", 1, g_bin_f, lambda a, b, c, p: np.clip(a + b, f32(-0.25), f32(0.75)).astype(f32)),
+    Pipe(68, 16, "add_multiply_leaky_relu_param", "add(multiply(leaky_relu(a,0.125),b),0.5)", 3, "f", 1, g_mul_f,
+         lambda a, b, c, p: (np.where(a >= 0, a, a * f32(0.125)).astype(f32) * b + f32(0.5)).astype(f32)),
     Pipe(63, 15, "concatenate_a_flip_b", "concatenate(a,flip(b,axis2),axis)", 2, "i", 1, g_concat_flip, lambda a, b, c, p: np.concatenate([a, np.flip(b, p[1])], p[0])),
 ]
 
